@@ -248,17 +248,20 @@ theorem add_winv (s s' : State V) (x : Id) (v : V) (level : Nat) (pick : Id) (e 
           exact ⟨a, b, c⟩
         · exact ⟨hinv, rfl, fun _ hh => hh⟩
       obtain ⟨hwF, hdF, hsubF⟩ := hF
+      generalize (if (x == 0) = true then sf.nextID else x) = key at h
       split at h
-      · cases h
-      · next s2 hlink =>
-        simp only [Except.ok.injEq, Prod.mk.injEq] at h
-        obtain ⟨rfl, rfl⟩ := h
-        obtain ⟨hw2, hd2, hsub2, _⟩ := addLinked_winv m sf s2 x v' level hwF hlink
-        refine ⟨hw2, hd2.trans hdF, ?_⟩
-        intro j hj
-        rcases hsub2 j hj with h1 | h1
-        · exact Or.inl (hsubF j h1)
-        · exact Or.inr h1
+      · cases h   -- a later vector with own id 0: outside the modelled fragment
+      · split at h
+        · cases h
+        · next s2 hlink =>
+          simp only [Except.ok.injEq, Prod.mk.injEq] at h
+          obtain ⟨rfl, rfl⟩ := h
+          obtain ⟨hw2, hd2, hsub2, _⟩ := addLinked_winv m sf s2 x v' level hwF hlink
+          refine ⟨⟨hw2.del_res, hw2.entry_res, hw2.ml, hw2.empty_entry⟩, hd2.trans hdF, ?_⟩
+          intro j hj
+          rcases hsub2 j hj with h1 | h1
+          · exact Or.inl (hsubF j h1)
+          · exact Or.inr h1
 
 /-- the weak invariant along every history with fresh ids and allowed flush picks -/
 theorem run_winv :
